@@ -94,6 +94,14 @@ func ValidateChannelAnn(a lnwire.ChannelAnnouncement,
 // that node signatures covers the announcement message, and that the bitcoin
 // signatures covers the node keys.
 func validateChannelAnn1(a *lnwire.ChannelAnnouncement1) error {
+	// The two node ids name the two distinct nodes operating the channel:
+	// a node can't announce a channel with itself, both directions of
+	// such a channel would be controlled by the same key.
+	if a.NodeID1 == a.NodeID2 {
+		return errors.New("channel announcement names the same node " +
+			"on both sides")
+	}
+
 	// First, we'll compute the digest (h) which is to be signed by each of
 	// the keys included within the node announcement message. This hash
 	// digest includes all the keys, so the (up to 4 signatures) will
